@@ -79,7 +79,7 @@ def gen_base(seed, tier="quick"):
                 if len(o) > 1:
                     o[1] = pool.pop()
     plan["post_values"] = [pool.pop() for _ in range(4)]
-    if driver == "tridonic":
+    if True:                                   # a second gateway of the same kind with its own driver object
         z = plans.rng_for(seed, PROP + "-line-b")
         if z.random() < 0.15:
             plan["second_line"] = plans.gen_second_line(z)
